@@ -461,6 +461,26 @@ def family_scope():
     return P
 
 
+def family_scope_imports():
+    """names imported from another analysed file (each program is a directory: main.py + modules)"""
+    H = "LIMIT = 10\n\ndef g2(v):\n    return v + LIMIT\n\ndef g3(v):\n    return v * 3\n\nclass K2:\n    def __init__(self, v):\n        self.v = v\n"
+    P = []
+
+    def add(name, head, body, modules=None):
+        P.append(dict(name=name, family="F-scope-import", src=head + "\n\n" + body + TAIL, bounds={}, known=None, modules=modules or {"helper": H}))
+    add("imp_function", "from helper import g2", "def f(a, b, c):\n    return g2(a)\n")
+    add("imp_variable", "from helper import LIMIT", "def f(a, b, c):\n    if c:\n        return a + LIMIT\n    return b\n")
+    add("imp_alias", "from helper import g2 as hh", "def f(a, b, c):\n    return hh(a)\n")
+    add("imp_class", "from helper import K2", "def f(a, b, c):\n    o = K2(a)\n    return o.v\n")
+    add("imp_shadowed_by_local", "from helper import g2", "def f(a, b, c):\n    g2 = a\n    return g2 + 1\n")
+    add("imp_shadowed_by_parameter", "from helper import LIMIT", "def f(a, b, c):\n    return w3(a) + LIMIT\n\ndef w3(LIMIT):\n    return LIMIT + 1\n")
+    add("imp_next_to_same_named_neighbour", "from helper import g2", "def g3(v):\n    return v - 3\n\ndef f(a, b, c):\n    return g2(a) + g3(b)\n")
+    add("imp_reexported", "from middle import g2", "def f(a, b, c):\n    return g2(a)\n", {"middle": "from helper import g2\n", "helper": H})
+    add("imp_two_modules_same_name", "from helper import g2\nfrom other import g3", "def f(a, b, c):\n    return g2(a) + g3(b)\n",
+        {"helper": H, "other": "def g3(v):\n    return v + 33\n"})
+    return P
+
+
 def scope_witnesses():
     W = []
     W.append(dict(name="w_class_field_captures_global", family="witness", bounds={},
